@@ -365,8 +365,9 @@ func c02Fixed(server string) []gProg {
 		mk(gOp{K: "read", H: "r0", Off: 7, Len: 300}, gOp{K: "fstat", H: "r1"}, gOp{K: "write", H: "w0", Off: 33000, Len: 10}, gOp{K: "read", H: "r1", Off: 99990, Len: 100}),
 		mk(gOp{K: "write", H: "w0", Off: 0, Len: 100}, gOp{K: "readdir", H: "d0"}, gOp{K: "read", H: "r0", Off: 1, Len: 1}, gOp{K: "close", H: "d0"}),
 	}
-	// one request whose type does not fit the kind of its handle, alone in the stream (minimal inputs for F13 on the
-	// request server; on the os-backed server the kernel refuses the operation and an error STATUS is the legal reply)
+	// one request whose type does not fit the kind of its handle, alone in the stream: the request server must refuse
+	// it without calling a handler, on the os-backed server the kernel refuses the operation; an error STATUS is the
+	// only legal reply (regression inputs for the former defect F13)
 	var single []gProg
 	for _, m := range [][2]string{{"read", "mw"}, {"write", "mr"}, {"read", "md"}, {"write", "md"}, {"readdir", "mr"}, {"readdir", "mw"}, {"readdir", "mx"}} {
 		single = append(single, mk(gOp{K: m[0], H: m[1], Len: 16}))
@@ -600,8 +601,8 @@ func c02ImplSent(run *gRun) string {
 	return fmt.Sprintf("%s %d", s, len(run.Case.Prog.Ops))
 }
 
-// c02EndOfStream: the input ends right after five pipelined STATs (known defect F5: the controller's select may take
-// the fini branch while replies are still queued).
+// c02EndOfStream: the input ends right after five pipelined STATs; every one of them must still be answered
+// (regression oracle for the former defect F5: the controller's select took the fini branch with replies queued).
 func c02EndOfStream(c *lib.Ctx, modelOK bool) {
 	r := c.R
 	const runs, depth = 200, 5
